@@ -217,5 +217,186 @@ def _triu_sweep(plan: dict[str, Any], bad: Any, oc: Outcome) -> None:
     oc.violations = [v for v in oc.violations if 'C14' in v['props']]
 
 
+COMPONENTS_ASSIGN = {
+    'real': ['kfac/assignment.py (KAISAAssignment)',
+             'kfac/gpt_neox/assignment.py (GPTNeoXAssignment), '
+             'kfac/gpt_neox/mpu.py (get_group_with_rank)'],
+    'stub': ['torch.distributed.new_group (recorder returning the member '
+             'tuple)', 'deepspeed PipeModelDataParallelTopology '
+             '(re-implemented row-major pipe,data,model mapping)'],
+}
+
+
+class AssignCase(BaseCase):
+    ops_key = None
+    components = COMPONENTS_ASSIGN
+    n_cases = {'quick': 600, 'thorough': 6000}
+    chunk = {'quick': 30, 'thorough': 100}
+    assumptions = [
+        'construction involves no communication, so no schedule is '
+        'explored: the simulation contributes the N-rank instantiation and '
+        'the new_group order check (stated candidly in DESIGN 5/C06, C12)',
+    ]
+    checker_name = ''
+
+    def evaluate(self, plan: dict[str, Any], tapes: Any = None) -> Outcome:
+        from simkfac import assign
+
+        oc = Outcome()
+
+        def bad(clause: str, **d: Any) -> None:
+            props = d.pop('props', None) or [clause.split('.')[0]]
+            oc.violations.append({'clause': clause, 'props': props, **d})
+
+        fn = {'kaisa': assign.check_kaisa,
+              'kaisa_fractions': assign.check_fractions,
+              'neox_assign': assign.check_neox_assignment}[plan['kind']]
+        fn(plan, bad, oc.stats)
+        oc.n_sims = 1
+        oc.violations = [v for v in oc.violations if self.pid in v['props']]
+        if plan['kind'] == 'kaisa':
+            oc.nontrivial = [f'{plan["world"]}/{plan["k"]}/'
+                             f'{plan["colocate"]}/{len(plan["work"])}']
+        elif plan['kind'] == 'neox_assign':
+            oc.nontrivial = [f'{plan["pipe"]}x{plan["data"]}x'
+                             f'{plan["model"]}/'
+                             f'{sorted(len(w) for w in plan["work"].values())}']
+        return oc
+
+    def brief(self, plan: dict[str, Any]) -> Any:
+        return plan
+
+
+class C06(AssignCase):
+    pid = 'C06'
+    expected_probes = ['assignments_built', 'layer_rank_checks',
+                       'fractions_tried']
+    rule = ('every rank of a world builds its own KAISAAssignment through '
+            'the real constructor with a recording group_func; relations of '
+            'the statement checked through public query methods and '
+            'cross-rank; enumerated: every world <= 64 (thorough 256) x '
+            'divisor x colocate with seeded costs, and acceptance of every '
+            'k/W for W <= 1024 (thorough 3072); seeded: random worlds, '
+            'costs with ties/zeros, 1-3 factors; distinct = distinct '
+            '(world, k, colocate, #layers)')
+
+    def fixed_plans(self, tier: str) -> list[dict[str, Any]]:
+        from simkfac import assign
+
+        return assign.kaisa_enum(tier)
+
+    def gen(self, rng: random.Random, tier: str) -> dict[str, Any]:
+        from simkfac import assign
+
+        return assign.gen_kaisa(rng, tier)
+
+
+class C12(AssignCase):
+    pid = 'C12'
+    expected_probes = ['assignments_built', 'layer_rank_checks']
+    rule = ('every rank of a pipe x data x model topology builds its own '
+            'GPTNeoXAssignment; agreement inside stages, membership '
+            'relations of factor worker / gradient source / gradient '
+            'workers, an independent least-loaded greedy, and equality of '
+            'the new_group call sequence across all ranks; enumerated: all '
+            'topologies with pipe<=4, data<=6, model<=4 and world <= 32 '
+            '(thorough 64), plus seeded costs; distinct = distinct '
+            '(topology, layer counts)')
+
+    def fixed_plans(self, tier: str) -> list[dict[str, Any]]:
+        from simkfac import assign
+
+        return assign.neox_enum(tier)
+
+    def gen(self, rng: random.Random, tier: str) -> dict[str, Any]:
+        from simkfac import assign
+
+        return assign.gen_neox_assignment(rng, tier)
+
+
+class C20(BaseCase):
+    pid = 'C20'
+    ops_key = 'ops'
+    n_cases = {'quick': 2500, 'thorough': 60000}
+    chunk = {'quick': 50, 'thorough': 250}
+    expected_probes = ['calls', 'queries', 'windowed_queries', 'clears',
+                       'raising_calls', 'sync_calls', 'clock_step',
+                       'clock_skew_change']
+    components = {
+        'real': ['kfac/tracing.py (trace, get_trace, clear_trace)'],
+        'stub': ['time.time (simulated clock with steps and per-rank skew)',
+                 'torch.distributed.barrier (SimDist)'],
+    }
+    assumptions = [
+        'in simulation all ranks share the process-global trace table; the '
+        'reference models that table, updated at the same instants',
+        'max_history >= 1 (the mean of zero samples is undefined; see '
+        'DESIGN section 7 item 9)',
+    ]
+    rule = ('SPMD programs of calls to 1-4 traced functions (shared names, '
+            'raising calls, args/kwargs with identity, sync barriers on '
+            'multi-rank worlds) interleaved with get_trace(average, '
+            'max_history) and clear_trace under a simulated clock with '
+            'forward/backward steps and skew changes; statistics compared '
+            'for equality with a reference table built from the clock\'s '
+            'own readings; distinct = distinct event digests')
+
+    def gen(self, rng: random.Random, tier: str) -> dict[str, Any]:
+        from simkfac import tracew
+
+        return tracew.gen_trace_plan(rng, tier)
+
+    def legal(self, plan: dict[str, Any]) -> bool:
+        return any(o['op'] == 'get' for o in plan['ops'])
+
+    def evaluate(self, plan: dict[str, Any], tapes: Any = None) -> Outcome:
+        from simkfac import tracew
+
+        oc = Outcome()
+        res = tracew.execute(plan, tapes)
+        _absorb_comm(oc, res)
+        oc.stats.update(res['stats'])
+        oc.tapes = res['decisions']
+        v = list(res['local'])
+        if res['status'] == 'deadlock':
+            v.append({'clause': 'C20.deadlock', 'props': ['C20', 'C03'],
+                      'info': res['deadlock']})
+        for r, e in res['rank_errors'].items():
+            v.append({'clause': 'C20.rank_exception', 'props': ['C20'],
+                      'rank': r, 'error': e['error'],
+                      'tb': e['tb'][-1200:]})
+        for x in res['violations']:
+            v.append({'clause': 'C20.transport_' + x['clause'],
+                      'props': ['C20', 'C03'],
+                      **{k: y for k, y in x.items() if k != 'clause'}})
+        if res['status'] == 'ok' and res['pending']:
+            v.append({'clause': 'C20.pending_barrier', 'props': ['C20'],
+                      'pending': res['pending'][:4]})
+        oc.violations = v
+        oc.nontrivial = [res['event_digest'] + str(len(plan['ops']))]
+        oc.value_digests = [repr(res['clock_log'][-3:])]
+        return oc
+
+    def shrinkers(self) -> list[Callable[[dict[str, Any]], bool]]:
+        def world1(p: dict[str, Any]) -> bool:
+            if p['world'] == 1:
+                return False
+            p['world'] = 1
+            p['clock']['skew'] = p['clock']['skew'][:1]
+            for j in p['clock']['skew_jumps']:
+                j['rank'] = 0
+            return True
+
+        def nojumps(p: dict[str, Any]) -> bool:
+            if not p['clock']['jumps'] and not p['clock']['skew_jumps']:
+                return False
+            p['clock']['jumps'] = []
+            p['clock']['skew_jumps'] = []
+            return True
+
+        return [world1, nojumps, _set(['clock', 'base'], 0.0),
+                _set(['clock', 'read_cost'], 0.0)]
+
+
 def registry() -> dict[str, Any]:
-    return {c.pid: c() for c in (C08, C14)}
+    return {c.pid: c() for c in (C06, C08, C12, C14, C20)}
